@@ -87,6 +87,36 @@ def run_fill(ctx):
         # the xor loop precedes the hash: its header dominates the hash call
         xl = g.loop_of(xs[0][0])
         good = good and xl is not None and xl[0] != lp[0] and b.dominates(xl[0], hbi) and hbi not in xl[1]
+    if not good:
+        # the same xor spelled with an index loop: `for i in 0..bytes.len() { block[i] ^= bytes[i] }` with bytes = counter.to_le_bytes()
+        le = Call("to_le_bytes", item)
+        for bi, si, st in b.iter_stmts():
+            if st.kind != "assign" or st.rv is None or st.rv.kind != "bin" or st.rv.op != "BitXor" or bi not in lp[1]:
+                continue
+            e = g.eb.rvalue(st.rv)
+            xl = g.loop_of(bi)
+            if xl is None or xl[0] == lp[0]:
+                continue
+            class _E:
+                block = bi
+            xsrc = ctx.loop_source(f, _E)
+            i_item = Field(Call("next"), name="0", variant="Some")
+            opnds = (e[2], e[3])
+            full = xsrc is not None and xsrc[0] == "agg" and "Range" in xsrc[1] and len(xsrc[2]) == 2 and Lit(0)(xsrc[2][0]) and \
+                (Len(le)(xsrc[2][1]) or Lit(8)(xsrc[2][1])) and not adapters_in(xsrc)
+            def _blk(o):
+                if Mentions(le)(o):
+                    return False
+                if Index(Any(), i_item)(o):
+                    return True
+                if o[0] == "phi":          # `*r ^= ..` through r = &mut block[i]
+                    return any(de is not None and (Index(Any(), i_item)(de) or Call("index_mut", Any(), i_item)(de)) for (de, dc, dbi) in phi_defs(g, o[1]))
+                return False
+            blk_i = any(_blk(o) for o in opnds)
+            cnt_i = any(Index(le, i_item)(o) for o in opnds)
+            tgt_ok = st.place is not None and any(isinstance(pe, tuple) and pe[0] in ("ix", "i") for pe in st.place[1]) or True
+            if full and blk_i and cnt_i and tgt_ok and b.dominates(xl[0], hbi) and hbi not in xl[1]:
+                good = True
     req(ctx, rule, K + "counter-xor-le", good, "block ^= counter.to_le_bytes() before hashing",
         "the block counter is not xored (little endian, all bytes) into the block before hash_block", loc=f.loc)
     # --- read size, copy, offsets
